@@ -66,6 +66,9 @@ def parseAct (ws : List String) : Option (Act Float) :=
   | ["ADDEDGE", i, n, m] => some (.addEdge i.toNat! n.toInt! m.toInt!)
   | ["RMEDGE", i, n, m] => some (.rmEdge i.toNat! n.toInt! m.toInt!)
   | ["OBSERVE"] => some .observe
+  | ["VACC"] => some .vaccinate
+  | ["PLEAVE", loc] => some (.plainLeave loc.toNat!)
+  | ["SIVR", i, c, off, eff, ln, lv] => some (.sivrInfect i.toNat! c.toNat! (parseF off) (parseF eff) ln.toNat! lv.toNat!)
   | ["ADADD", loc, c, "alone"] => some (.adAdd loc.toNat! c.toNat! .alone)
   | ["ADADD", loc, c, "inherit", i, sc, rc] => some (.adAdd loc.toNat! c.toNat! (.inherit i.toNat! sc.toNat! rc.toNat!))
   | ["ADADD", loc, c, "seq", i, sc, rc] => some (.adAdd loc.toNat! c.toNat! (.seq i.toNat! sc.toNat! rc.toNat!))
@@ -95,7 +98,9 @@ def stateLine (r : Rec) (s : St Float (U Float) Elem) : String :=
   let hitS := hit.toList.map fun h => s!"{h.1}@{fbits h.2.1}" ++ (match h.2.2 with | some i => if r.named[i]?.getD false then s!"/{i}" else "" | none => "")
   let nodes := " ".intercalate (u.w.net.nodes.map toString)
   let edges := " ".intercalate (u.w.net.nodes.map fun n => s!"{n}:" ++ ",".intercalate ((u.w.net.adj n).map toString))
-  s!"nodes=[{nodes}] adj=[{edges}] comp=[{" | ".intercalate comps}] loci=[{" ".intercalate loci}] pend=[{" ".intercalate pendS}] occ=[{" ".intercalate occS}] tocc=[{" ".intercalate toccS}] hit=[{" ".intercalate hitS}]"
+  let vac := u.vacc.toArray.qsort (fun a b => a.1 < b.1)
+  let vacS := if vac.isEmpty then "" else " vacc=[" ++ " ".intercalate (vac.toList.map fun v => s!"{v.1}@{fbits v.2}") ++ "]"
+  s!"nodes=[{nodes}] adj=[{edges}] comp=[{" | ".intercalate comps}] loci=[{" ".intercalate loci}] pend=[{" ".intercalate pendS}] occ=[{" ".intercalate occS}] tocc=[{" ".intercalate toccS}] hit=[{" ".intercalate hitS}]{vacS}"
 
 def mkCfg (r : Rec) : Sim.Cfg Float :=
   let kinds := r.kinds; let eff := r.effects; let hacts := r.hacts
